@@ -13,3 +13,5 @@ open RV.C03
 #print axioms isValidList_terminates
 #print axioms old_isValidList_accepts_malformed
 #print axioms old_isValidList_diverges_on_cycle
+#print axioms layout_roundtrip
+#print axioms coll_is_sugar
